@@ -105,6 +105,24 @@ def rule_lzma2_writer(facts):
                                            (fill_helper is not None and any(z[0] == "call" and len(z) > 3 and z[3] == rd.idx for z in _subterms(q)))):
                 return n
             if q[0] == "call" and q[1].endswith(("Vec::len", "::len")) and pat.has_call(q, "vec::from_elem"):
+                a = q[2][0] if q[2] else None
+                while isinstance(a, tuple) and a and a[0] in ("ref", "deref"):
+                    a = a[1]
+                # the length of a sub-slice is decided by its range, not by the buffer
+                if isinstance(a, tuple) and a and (a[0] == "index" or (a[0] == "call" and "index" in a[1].lower())):
+                    rg = [z for z in _subterms(a) if z[0] == "agg" and "Range" in str(z[1])]
+                    if len(rg) != 1:
+                        raise pat.NotEvaluable(q)
+                    kind, ops = str(rg[0][1]), rg[0][2]
+                    if kind.endswith("RangeTo") and len(ops) == 1:
+                        return pat.eval_term(ops[0], leaf)
+                    if kind.endswith("Range::Range") and len(ops) == 2:
+                        return pat.eval_term(ops[1], leaf) - pat.eval_term(ops[0], leaf)
+                    if kind.endswith("RangeFrom") and len(ops) == 1:
+                        return cap - pat.eval_term(ops[0], leaf)
+                    if kind.endswith("RangeFull"):
+                        return cap
+                    raise pat.NotEvaluable(q)
                 return cap
             raise pat.NotEvaluable(q)
         return leaf
@@ -384,15 +402,35 @@ def rule_padding(facts):
             r.need(nm, False)
             continue
         tm = Terms(b)
-        pads = [blk for blk in b.calls() if (flow.callee(blk.term) or "").endswith("vec::from_elem") and
-                pat.has_call(tm.of_operand(blk.term.args[1]), "count")]
+        # the padding written: a write_all whose data is `vec![z; e]` or the first e bytes of a zero array, e a function of the count
+        pads = []
+        for w in b.calls():
+            if not (flow.declared(w.term) or "").endswith("write_all") or len(w.term.args) < 2:
+                continue
+            dt = tm.of_operand(w.term.args[1])
+            if not pat.has_call(dt, "count"):
+                continue
+            cand = None
+            for q in _subterms(dt):
+                if q[0] == "call" and q[1].endswith("vec::from_elem") and len(q[2]) == 2 and pat.has_call(q[2][1], "count"):
+                    cand = (q[2][0], q[2][1], None)
+                if q[0] in ("index",) or (q[0] == "call" and str(q[1]).endswith(("Index>::index", "Index::index"))):
+                    base = q[1] if q[0] == "index" else q[2][0]
+                    rg = [z for z in _subterms(q) if z[0] == "agg" and str(z[1]).endswith("RangeTo") and len(z[2]) == 1]
+                    while isinstance(base, tuple) and base and base[0] in ("ref", "deref"):
+                        base = base[1]
+                    if rg and isinstance(base, tuple) and base:
+                        if base[0] == "repeat":
+                            cand = (base[1], rg[0][2][0], base[2] if isinstance(base[2], int) else None)
+                        elif base[0] == "agg" and base[1] == "array" and len(set(base[2])) == 1:
+                            cand = (base[2][0], rg[0][2][0], len(base[2]))
+            if cand:
+                pads.append((w, cand))
         if not pads:
-            r.bad("%s|padding" % nm, "cannot find the padding vector", pat.where(b), "unverifiable")
+            r.bad("%s|padding" % nm, "cannot find the padding written after the byte count", pat.where(b), "unverifiable")
             continue
-        for blk in pads:
+        for blk, (z, e, room) in pads:
             n += 1
-            e = tm.of_operand(blk.term.args[1])
-            z = tm.of_operand(blk.term.args[0])
             bad = None
             try:
                 for cnt in list(range(0, 64)) + [(1 << 32) - 1, 1 << 32, (1 << 40) + 3]:
@@ -407,11 +445,8 @@ def rule_padding(facts):
                 continue
             if z != ("const", 0):
                 bad = "padding bytes are not zero"
-            # written
-            used = any((flow.declared(w.term) or "").endswith("write_all") and
-                       any(q[0] == "call" and len(q) > 3 and q[3] == blk.idx for q in _subterms(tm.of_operand(w.term.args[1]))) for w in b.calls())
-            if not used:
-                bad = "the padding vector is never written"
+            if room is not None and room < 3:
+                bad = "the zero array holds %d bytes, up to 3 are needed" % room
             if bad:
                 r.bad("%s|padding" % nm, bad, pat.where(b, blk.idx))
             else:
